@@ -60,6 +60,15 @@ class SimLock:
         self.held = False
         self.rel += 1
 
+    # a threading.Lock is also a context manager
+    def __enter__(self):
+        self.acquire()
+        return True
+
+    def __exit__(self, *a):
+        self.release()
+        return False
+
     def locked(self):
         return self.held
 
